@@ -27,6 +27,28 @@ def h64(x):
     return hashlib.blake2b(repr(x).encode(), digest_size=8).hexdigest()
 
 
+class _Guard:
+    def __init__(self, rec, what, case, features):
+        self.rec, self.what, self.case, self.features = rec, what, case, features
+        self.failed = False
+
+    def __enter__(self):
+        return self
+
+    def __exit__(self, et, ev, tb):
+        if et is None or not issubclass(et, Exception):
+            return False
+        import traceback
+        self.failed = True
+        f = dict(self.features or {})
+        f.setdefault('mechanism', 'exception')
+        f.setdefault('exc', et.__name__)
+        where = traceback.extract_tb(tb)[-1]
+        self.rec.violation(f'{self.what}: raised {et.__name__}: {ev} at {where.filename.split("/")[-1]}:{where.lineno}', f,
+                           {'case': self.case, 'traceback': traceback.format_exception(et, ev, tb)[-3:]}, case=self.case)
+        return True
+
+
 class Recorder:
     MAX_SAMPLES = 3
     MAX_PER_SIG = 6
@@ -84,6 +106,10 @@ class Recorder:
         if self._sig_count[sig] <= self.MAX_PER_SIG and len(self._sig_count) <= self.MAX_SIGS:
             self.violations.append({'what': str(what)[:600], 'features': jsonable(features or {}),
                                     'witness': jsonable(witness), 'case': jsonable(case)})
+
+    def guard(self, what, case=None, features=None):
+        """context manager: an exception escaping the code under test inside the block is a violation (not a harness failure)"""
+        return _Guard(self, what, case, features)
 
     def inconclusive_because(self, reason):
         self.inconclusive.append(str(reason)[:400])
